@@ -65,7 +65,10 @@ def exampleModule : G.Module :=
       { vis := .priv, name := "Mode", inner := .enum {
           ty := .ident "u32", attrs := [],
           stmts := [{ name := "A", expr := some (.int (-5)), attrs := [] },
-                    { name := "B", expr := none, attrs := [.ident "default"] }] } }]
+                    { name := "B", expr := none, attrs := [.ident "default"] }] } },
+      -- a type without statements: written `type Opaque;` / `type Opaque { }`
+      { vis := .priv, name := "Opaque", inner := .type {
+          attrs := [.fn "size" [.int 4]], stmts := [] } }]
     impls := [{ name := "World", attrs := [], fns := [
       { vis := .pub, name := "get", attrs := [.fn "address" [.int 0x500]], args := [.constSelf],
         ret := none }] }]
@@ -74,8 +77,9 @@ def exampleModule : G.Module :=
 example : WF exampleModule := by decide
 
 /-- **C18, token level.**  The tokens written for a well-formed module parse back to exactly
-    that module – whichever positions the tokens carry, and whether or not the `,`/`;`
-    terminated lists are written with their trailing separator. -/
+    that module – whichever positions the tokens carry, and whichever optional spelling is
+    written (`tr`): the `,`/`;` terminated lists with or without their trailing separator, a type
+    definition without statements as `type T;` or as `type T { }`. -/
 theorem parse_print_tokens_any (tr : Bool) (m : G.Module) (h : WF m) (ts : List Tok)
     (hts : ts.map (·.k) = Print.printK tr m) : Parse.parseModule ts = .ok m := by
   simp only [Parse.parseModule, hts, parseK_printK tr m h]
@@ -87,6 +91,48 @@ theorem parse_print_tokens (m : G.Module) (h : WF m) :
 
 example : Parse.parseModule (Print.printModule exampleModule) = .ok exampleModule :=
   parse_print_tokens exampleModule (by decide)
+
+/-- **C18, the body-less spelling `type Name;`.**  A type definition without statements has a
+    second spelling, `type Name;` (`parse_type_definition` peeks `Token![;]` before it looks for
+    the braces).  `Print.printK true` writes it (`Print.pTypeBody`), `Print.printK false` writes
+    `type Name { }`, so `parse_print_tokens_any` covers both; this is the `;` spelling made
+    explicit: the tokens `#[a₁] … #[aₙ] [pub] type Name ;` of a well-formed item parse to exactly
+    that item – its attributes and its visibility included, no statements. -/
+theorem parse_type_semi (i : G.Item) (d : G.TypeDef) (hi : i.inner = .type d) (hd : d.stmts = [])
+    (h : WF { defs := [i] }) (ts : List Tok)
+    (hts : ts.map (·.k) = Print.pAttrs false true d.attrs ++ Print.pVis i.vis ++
+      [.ident "type", .ident i.name, .punct ';' false]) :
+    Parse.parseModule ts = .ok { defs := [i] } := by
+  apply parse_print_tokens_any true _ h ts
+  obtain ⟨vis, name, inner⟩ := i
+  obtain ⟨stmts, attrs⟩ := d
+  subst hi hd
+  simpa [Print.printK, Print.pItemDef, Print.pTypeBody, Print.pAttrs] using hts
+
+/-- `#[size(8)] #[doc = " opaque"] pub type Handle;` -/
+def semiItem : G.Item :=
+  { vis := .pub, name := "Handle",
+    inner := .type { stmts := [], attrs := [.fn "size" [.int 8], .assign "doc" (.str " opaque")] } }
+
+example : Parse.parseModule
+    ([.punct '#' false, .op .bracket, .ident "size", .op .paren, .int 8, .punct ',' false, .cl .paren,
+      .cl .bracket, .punct '#' false, .op .bracket, .ident "doc", .punct '=' false, .str " opaque",
+      .cl .bracket, .ident "pub", .ident "type", .ident "Handle", .punct ';' false].map
+        fun k => ⟨k, (0, 0)⟩) = .ok { defs := [semiItem] } :=
+  parse_type_semi semiItem _ rfl rfl (by decide) _ (by decide)
+
+/-- the printer does write this spelling, and the other one without the optional spellings -/
+example : Print.printK true { defs := [semiItem] } =
+    [.punct '#' false, .op .bracket, .ident "size", .op .paren, .int 8, .punct ',' false, .cl .paren,
+      .cl .bracket, .punct '#' false, .op .bracket, .ident "doc", .punct '=' false, .str " opaque",
+      .cl .bracket, .ident "pub", .ident "type", .ident "Handle", .punct ';' false] := by decide
+
+example : Print.printK false { defs := [semiItem] } =
+    [.punct '#' false, .op .bracket, .ident "size", .op .paren, .int 8, .cl .paren,
+      .cl .bracket, .punct '#' false, .op .bracket, .ident "doc", .punct '=' false, .str " opaque",
+      .cl .bracket, .ident "pub", .ident "type", .ident "Handle", .op .brace, .cl .brace] := by decide
+
+example : Parse.parseStr "#[size(8)] /// opaque\npub type Handle;" = .ok { defs := [semiItem] } := by rfl
 
 /-! ## character level: lexing the printed text gives the printed tokens back -/
 
@@ -118,6 +164,10 @@ theorem parse_print_no_trailing (m : G.Module) (h : WF m) :
 
 example : Parse.parseStr (Print.printText exampleModule) = .ok exampleModule :=
   parse_print exampleModule (by decide)
+
+/-- … in particular the text `… type Handle ;` -/
+example : Parse.parseStr (Print.printText { defs := [semiItem] }) = .ok { defs := [semiItem] } :=
+  parse_print _ (by decide)
 
 /-- **C18, character level.**  For *every* lay-out `τ` – any mixture of white space, `//`
     comments and nested `/* */` comments in any gap, any base / `_` separators / letter case for
